@@ -89,6 +89,9 @@ def structural_obligation() -> tuple[dict | None, list[dict], set[str]]:
             "detail": f"extract_locks cannot translate the working tree, so the lock-shape obligation is not "
                       f"established: {e}",
             "replay": f"/venv/bin/python /verif/harness/extract_locks.py --repo {REPO}"})
+        m = re.search(r"(\w+) \(line \d+\).* in `(\w+)`", str(e))
+        if m:                                # explore the programs that use the refused method first
+            affected.add(f"{m.group(1)}.{m.group(2)}")
         return None, failures, affected
     p = subprocess.run(["lake", "build", "Redress.Generated.LockShape"], cwd=str(LEAN_DIR),
                        capture_output=True, text=True, timeout=900)
@@ -1205,7 +1208,13 @@ def run(tier: str, seed: int) -> dict:
                 ro = reduced_outcomes.get(_case_key(c["case"]))
                 if ro is not None:
                     plain["cross_checked_against_sleep_set_dfs"] = plain.get("cross_checked_against_sleep_set_dfs", 0) + 1
-                    if ro != s["outcome_set"]:
+                    if ro != s["outcome_set"] and failures:
+                        # the lock discipline the sleep-set reduction relies on is itself broken (structural
+                        # obligation failed): the reduction is no longer a self-check; every interleaving either
+                        # search ran is still a real execution, so their verdicts stand
+                        plain["sleep_set_mismatch_with_broken_lock_shape"] = \
+                            plain.get("sleep_set_mismatch_with_broken_lock_shape", 0) + 1
+                    elif ro != s["outcome_set"]:
                         raise RuntimeError("thread explorer internal error: sleep-set DFS and plain DFS reach different outcome sets on "
                                            f"{json.dumps(c['case'])}: plain-only {sorted(set(s['outcome_set']) - set(ro))}, "
                                            f"sleep-set-only {sorted(set(ro) - set(s['outcome_set']))}")
